@@ -124,6 +124,24 @@ class C06(ProtoSpec):
         return len(apps) > 1
 
 
+class C06Restart(C06):
+    """after a restart app X has stored rows but nothing in memory, app Y (sorted after X) has a live subscriber;
+    then a sweep, a second connection of Y, messages"""
+
+    def configure(self, tier):
+        P, E = P_E()
+        self.cfg = dict(storage="file", usage=True)
+        binds = [[("X", "A")], [("Y", "A")], [("Y", "B"), ("Y", "A")], [("Y", "B"), ("X", "B")]]
+        self.driver = Driver(binds, names=(), mids=("m",), msgs=(("p", "00", "i1"),), kinds=("bind", "open", "add", "drop"),
+                             ticks=(P,), max_ticks=2, max_adds=1, max_drops=1, max_conns=3 if tier == "quick" else 4)
+        self.depth = 4 if tier == "quick" else 6
+
+    def seeds(self):
+        return [[("cbind", 0, "X", "A"), ("claim", 0, "1"), ("restart",), ("cbind", 1, "Y", "A"), ("open", 1, "m")],
+                [("cbind", 0, "X", "A"), ("open", 0, "n"), ("cbind", 1, "Y", "A"), ("open", 1, "m"), ("restart",),
+                 ("cbind", 2, "Y", "A"), ("open", 2, "m")]]
+
+
 RULE = ("lockstep product: world 0 runs the full history mixing apps X and Y (identical nameplates, sides, mailbox ids, "
         "messages), world 1 runs only app Y's events plus sweeps/restarts; after every event Y's frames, Y's channel "
         "rows (with their side rows), Y's usage rows and the ids Y's clients learned must be equal up to a renaming of "
@@ -131,6 +149,8 @@ RULE = ("lockstep product: world 0 runs the full history mixing apps X and Y (id
 
 
 def make_spec(tier, name=None):
+    if name == "c06-restart":
+        return C06Restart(tier)
     sp = C06(tier)
     if name == "c06-x":
         sp.observed_app = "X"       # the mirror image: app X observed, app Y projected away
@@ -141,6 +161,8 @@ def run(pid, tier, seed, args):
     from .base_run import run_specs
     spec = make_spec(tier)
     specs = [("c06", spec, spec.depth, 100 if tier == "quick" else 1500)]
+    sr = make_spec(tier, "c06-restart")
+    specs.append(("c06-restart", sr, sr.depth, 40 if tier == "quick" else 500))
     if tier != "quick":
         sx = make_spec(tier, "c06-x")
         specs.append(("c06-x", sx, sx.depth, 1500))
